@@ -18,7 +18,14 @@ from . import orch
 from . import scen
 
 PROPS = {
-    "C12": {"scenarios": ["serialise"], "design": "DESIGN.md section 5"},
+    "C01": {"scenarios": ["roundtrip.uvl"]},
+    "C02": {"scenarios": ["roundtrip.json", "roundtrip.fide", "roundtrip.glencoe",
+                          "roundtrip.afm", "roundtrip.uvl"]},
+    "C05": {"scenarios": ["roundtrip.json"]},
+    "C06": {"scenarios": ["roundtrip.afm"]},
+    "C07": {"scenarios": ["roundtrip.fide"]},
+    "C08": {"scenarios": ["roundtrip.glencoe"]},
+    "C12": {"scenarios": ["serialise"]},
 }
 
 REAL = ["flamapy.metamodels.fm_metamodel (from the working tree of /repo)", "flamapy.core",
